@@ -285,3 +285,4 @@ def main(run):
     pick = [j for j in js if (j["ny"], j["nx"]) in ((4, 5), (1, 4), (3, 3)) and j["halo"] == 0.0]
     kindl.run_canaries(run, "vf.props.C11:canary_probe", CANARIES, pick)
     C11b.run_shapes(run)
+    C11b.canaries(run)
